@@ -238,6 +238,15 @@ fn derive_not_shape(def: &NotDef, symbol_table: &mut BTreeMap<Rc<str>, Shape>) -
 
 fn derive_copy_shape(def: &CopyDef, symbol_table: &mut BTreeMap<Rc<str>, Shape>) -> Shape {
     let base_shape = def.selector.derive_shape(symbol_table);
+    derive_copy_shape_for(base_shape, def, symbol_table)
+}
+
+/// Derive the shape of a copy expression whose base has already been resolved to a shape.
+fn derive_copy_shape_for(
+    base_shape: Shape,
+    def: &CopyDef,
+    symbol_table: &mut BTreeMap<Rc<str>, Shape>,
+) -> Shape {
     match &base_shape {
         // TODO(jwall): Should we allow a stack of these?
         Shape::TypeErr(_, _) => base_shape,
@@ -357,6 +366,15 @@ fn derive_copy_shape(def: &CopyDef, symbol_table: &mut BTreeMap<Rc<str>, Shape>)
 
 fn derive_call_shape(def: &CallDef, symbol_table: &mut BTreeMap<Rc<str>, Shape>) -> Shape {
     let func_shape = def.funcref.derive_shape(symbol_table);
+    derive_call_shape_for(func_shape, def, symbol_table)
+}
+
+/// Derive the shape of a call whose callee has already been resolved to a shape.
+fn derive_call_shape_for(
+    func_shape: Shape,
+    def: &CallDef,
+    symbol_table: &mut BTreeMap<Rc<str>, Shape>,
+) -> Shape {
     match &func_shape {
         Shape::Func(fdef) => {
             // Check arg count
@@ -1063,6 +1081,25 @@ fn derive_dot_expression(
 
         // TypeErr propagation
         (Shape::TypeErr(_, _), _) => left_shape.clone(),
+
+        // Call through a selector (`t.f(1)`): resolve the field, then type
+        // the call against the field's shape.
+        (_, Expression::Call(def)) => {
+            let field = Expression::Simple(def.funcref.clone());
+            match derive_dot_expression(pos, left_shape, &field, symbol_table) {
+                err @ Shape::TypeErr(_, _) => err,
+                func_shape => derive_call_shape_for(func_shape, def, symbol_table),
+            }
+        }
+
+        // Copy through a selector (`t.m{x = 1}`).
+        (_, Expression::Copy(def)) => {
+            let field = Expression::Simple(def.selector.clone());
+            match derive_dot_expression(pos, left_shape, &field, symbol_table) {
+                err @ Shape::TypeErr(_, _) => err,
+                base_shape => derive_copy_shape_for(base_shape, def, symbol_table),
+            }
+        }
 
         // Everything else is invalid
         (_, _) => Shape::TypeErr(pos.clone(), "Invalid field selector".to_owned()),
